@@ -32,8 +32,8 @@ CHECKS = {
  "C09": ("exploration", "differential oracle (rampBound) over calculateMaxCreation via shim and over ManageDeployment's create decisions + spacing monitor in the simulator",
    "Product of elapsed x interval x additive increase x maxParallelPodCreation x nodes at exact instants; creates of a sync bounded by rampBound measured from the Active condition of the status it was given; spacing of acting syncs >= reconcileFrequency-1s and at most maxUnavailable update deletions per sync judged on every simulated history (incl. failing pod calls and bursts of reconciles).",
    T+"non-positive intervals belong to C16.", "4/C09"),
- "C10": ("exploration", "differential oracle over CreatePodFromDaemonSetReplicaSet + compareCurrentPodWithNewPod round trip and single perturbations; input replica set compared with a deep copy after every call; label/namespace monitor on every pod created by real syncs of the simulator",
-   "20k (quick) / 200k (thorough) seeded (template, node, setting, mode) tuples: pinning in every affinity term, owner, labels, hash, default tolerations, resources precedence, wire round trip judged up to date, every single perturbation judged outdated.",
+ "C10": ("exploration", "differential oracle over CreatePodFromDaemonSetReplicaSet + compareCurrentPodWithNewPod round trip and single perturbations; input replica set compared with a deep copy after every call; monitors on real syncs of simulated histories with node override annotations and ExtendedDaemonsetSettings that change while pods exist: resources precedence of every created pod against what the sync read, no update deletion of an own pod whose creation inputs read the same, no outdated pod left at the fixpoint, labels/namespace",
+   "20k (quick) / 200k (thorough) seeded (template, node, setting, mode) tuples: pinning in every affinity term, owner, labels, hash, default tolerations, resources precedence, wire round trip judged up to date, every single perturbation judged outdated. Simulator engines (schedules S and N): overrides and settings created, edited and removed by the user, the setting controller interleaved, several pods per sync; rules resources-precedence, spurious-replace, outdated-recognised (fixpoint).",
    T+"a malformed annotation is expected to fall through to setting/template; its being reported is not part of the statement.", "4/C10"),
  "C11": ("fault_enumeration", "fault injection at the client seam: every API call index x {reject, lost reply, stop before, stop after}; safety monitors at every step, final abstract state compared with the failure-free run",
    "Ten corpus scenarios; the failure-free run is recorded, then re-run once per (call index, fault kind); stop faults void the rest of the invocation and rebuild all reconcilers with empty in-memory state; thorough adds 20k seeded fault pairs.",
@@ -56,7 +56,7 @@ CHECKS = {
  "C17": ("exploration", "Go race detector (-race build, halt_on_error=0, report blocks counted and de-duplicated) + conservation-of-errors monitor with unique error ids + condition reflection on real syncs",
    "Helper batches 2..64 x failure plans with jitter at the client seam; real replica-set syncs (active and canary role) with failing pod calls; the four reconcilers, kubelet and user concurrently on one store with 0/10/100% failing pod calls.",
    T+"the Go race detector only sees the interleavings that occur.", "4/C17"),
- "C18": ("exploration", "differential oracle over the real setting reconciler in every reconcile order of each population + observation of the settings a replica-set sync attaches",
+ "C18": ("exploration", "differential oracle over the real setting reconciler in every reconcile order of each population + observation of the settings a replica-set sync attaches; at fixpoints of simulated histories with settings: at most one valid setting per node, none valid without a reference, created pods only influenced by valid settings",
    "1.5k (quick) / 12k (thorough) populations of <=4 settings x <=4 nodes, all <=24 orders, two passes: mutual exclusion, malformed in error with text, lone well-formed valid, only valid settings influence created pods.",
    T+"settings of other namespaces never conflict.", "4/C18"),
  "C19": ("exploration", "whole-store diff monitor around the real kubectl-eds command bodies on every reachable state + interpretation by following reconciles",
